@@ -126,7 +126,9 @@ E("selecttrue", 1, lambda S: etl.selecttrue(S[0], "v"), "stream")
 E("selectfalse", 1, lambda S: etl.selectfalse(S[0], "v"), "stream")
 E("selectnone", 1, lambda S: etl.selectnone(S[0], "v"), "stream")
 E("selectnotnone", 1, lambda S: etl.selectnotnone(S[0], "v"), "stream")
-E("selectusingcontext", 1, lambda S: etl.selectusingcontext(S[0], lambda p, c, n: p is None or n is None), "stream")
+# (the query looks at the neighbours but does not single out the last row, so that the first k output rows
+#  are a function of a prefix of the source - which is what "streaming" means for C02)
+E("selectusingcontext", 1, lambda S: etl.selectusingcontext(S[0], lambda p, c, n: p is None or c["v"] != p["v"] or (n is not None and n["k"] == c["k"])), "stream")
 E("rowlenselect", 1, lambda S: etl.rowlenselect(S[0], 4), "stream")
 E("biselect0", 1, lambda S: etl.biselect(S[0], lambda r: r["v"] == 1)[0], "stream")
 E("biselect1", 1, lambda S: etl.biselect(S[0], lambda r: r["v"] == 1)[1], "stream")
